@@ -803,3 +803,104 @@ Section Card.
       + destruct e; contradiction.
   Qed.
 End Card.
+
+(* ---------- random_word: uniformity ---------- *)
+Section Uniform.
+  Variable m : dfa.
+  Hypothesis Hv : valid_dfa m = true.
+
+  Lemma pick_In r row : forall c a t, pick m r row c = Some (a, t) -> In (a, t) row.
+  Proof.
+    induction row as [|[a' t'] rest IH]; intros c a t; simpl; [discriminate|].
+    destruct (N.ltb c (cnt m r t')).
+    - intro H. inversion H; subst. left. reflexivity.
+    - intro H. right. eapply IH. exact H.
+  Qed.
+
+  (* per step: with the draw ranging over [0, total), the entry (a, t) of the row is selected
+     exactly for the draws of an interval of cnt r t consecutive values inside the range *)
+  Lemma pick_interval r row : NoDup (map fst row) -> forall a t, In (a, t) row ->
+    exists off, (off + cnt m r t <= row_total m r row)%N /\
+      forall c, pick m r row c = Some (a, t) <-> (off <= c < off + cnt m r t)%N.
+  Proof.
+    induction row as [|[a' t'] rest IH]; intros Hn a t Hin; [destruct Hin|].
+    simpl in Hn. inversion Hn as [|x l Hnot Hn']; subst.
+    unfold row_total. simpl. fold (row_total m r rest).
+    destruct Hin as [Hin|Hin].
+    - inversion Hin; subst. exists 0%N. split; [lia|]. intro c.
+      destruct (N.ltb c (cnt m r t)) eqn:E.
+      + apply N.ltb_lt in E. split; [intros _; lia|reflexivity].
+      + apply N.ltb_ge in E. split; [|lia]. intro H. apply pick_In in H.
+        exfalso. apply Hnot. apply in_map_iff. exists (a, t). split; [reflexivity|exact H].
+    - destruct (IH Hn' a t Hin) as [off [Hle Hc]]. exists (cnt m r t' + off)%N. split; [lia|]. intro c.
+      assert (Hne : a <> a').
+      { intro E. subst a'. apply Hnot. apply in_map_iff. exists (a, t). split; [reflexivity|exact Hin]. }
+      destruct (N.ltb c (cnt m r t')) eqn:E.
+      + apply N.ltb_lt in E. split; [|lia]. intro H. inversion H. congruence.
+      + apply N.ltb_ge in E. rewrite Hc. lia.
+  Qed.
+
+  (* along the run of a word: the product of the sizes of the selecting intervals, and the
+     product of the sizes of the ranges drawn from *)
+  Fixpoint path_num (rem q : nat) (w : word) : N :=
+    match rem, w with
+    | S r, a :: w' => match d_delta m q a with
+                      | Some t => (cnt m r t * path_num r t w')%N
+                      | None => 0%N
+                      end
+    | _, _ => 1%N
+    end.
+
+  Fixpoint path_den (rem q : nat) (w : word) : N :=
+    match rem, w with
+    | S r, a :: w' => match d_delta m q a with
+                      | Some t => (cnt m (S r) q * path_den r t w')%N
+                      | None => 0%N
+                      end
+    | _, _ => 1%N
+    end.
+
+  (* the ranges drawn from along the run of w *)
+  Fixpoint path_bounds (rem q : nat) (w : word) : list N :=
+    match rem, w with
+    | S r, a :: w' => match d_delta m q a with
+                      | Some t => cnt m (S r) q :: path_bounds r t w'
+                      | None => []
+                      end
+    | _, _ => []
+    end.
+
+  Definition Nprod (l : list N) : N := fold_right N.mul 1%N l.
+
+  Lemma path_den_bounds rem : forall q w, length w = rem -> dfa_acc_from m (Some q) w = true ->
+    path_den rem q w = Nprod (path_bounds rem q w).
+  Proof.
+    induction rem as [|r IH]; intros q w Hl Ha; [destruct w; reflexivity|].
+    destruct w as [|a w']; [discriminate|]. simpl in Hl. rewrite (acc_from_cons m) in Ha.
+    simpl path_den. simpl path_bounds.
+    destruct (d_delta m q a) as [t|] eqn:E; [|rewrite (acc_from_None m) in Ha; discriminate].
+    simpl. rewrite (IH t w' ltac:(lia) Ha). reflexivity.
+  Qed.
+
+  (* telescoping: (number of draw vectors producing w) / (size of the box they are drawn from)
+     = 1 / (number of accepted words of that length), the same for every accepted w *)
+  Lemma path_telescope rem : forall q w, length w = rem -> dfa_acc_from m (Some q) w = true ->
+    (path_num rem q w * cnt m rem q = path_den rem q w)%N /\ path_den rem q w <> 0%N.
+  Proof.
+    induction rem as [|r IH]; intros q w Hl Ha.
+    - destruct w; [|discriminate]. simpl. unfold dfa_acc_from in Ha. simpl in Ha.
+      unfold is_final. rewrite Ha. split; [reflexivity|discriminate].
+    - destruct w as [|a w']; [discriminate|]. simpl in Hl.
+      rewrite (acc_from_cons m) in Ha. simpl path_num. simpl path_den.
+      destruct (d_delta m q a) as [t|] eqn:E; [|rewrite (acc_from_None m) in Ha; discriminate].
+      destruct (IH t w' ltac:(lia) Ha) as [IH1 IH2]. split.
+      + rewrite <- IH1.
+        change (cnt m (S r) q) with (Nsum (map (fun p : nat * nat => cnt m r (snd p)) (row_of m q))).
+        generalize (Nsum (map (fun p : nat * nat => cnt m r (snd p)) (row_of m q))) (cnt m r t) (path_num r t w').
+        intros x y z. rewrite (N.mul_comm z y), (N.mul_comm x). reflexivity.
+      + assert (Hc : cnt m (S r) q <> 0%N).
+        { intro Hz. apply (cnt_zero_iff m Hv (S r) q) with (w := a :: w') in Hz; [|simpl; lia].
+          rewrite (acc_from_cons m), E in Hz. congruence. }
+        apply N.neq_mul_0. split; [exact Hc|exact IH2].
+  Qed.
+End Uniform.
